@@ -181,6 +181,10 @@ void harness(void)
 #ifdef LOCK_PROXY
     { int l0 = n_lock; w_ts_lock_use(O, 8, 8);
       ASSERT(n_lock == l0 + 1 && mutex_held == 0 && n_lock == n_unlock, "C13: the lock() proxy holds the mutex for exactly its lifetime"); }
+    { int l0 = n_lock; w_ts_lock_move_use(O, 8, 8);
+      ASSERT(n_lock == l0 + 1 && mutex_held == 0 && n_lock == n_unlock, "C13: a moved lock() proxy keeps the mutex until its new owner is destroyed, and releases it once"); }
+    { int l0 = n_lock; w_ts_lock_const_use(O);
+      ASSERT(n_lock == l0 + 1 && mutex_held == 0 && n_lock == n_unlock, "C13: lock() on a const storage holds the mutex for exactly the proxy's lifetime"); }
 #endif
 #ifndef EXPECT_MUTEX
     ASSERT(!mutex_used, "C13: allocators without a mutex type take no lock");
